@@ -63,3 +63,12 @@ Definition check_line (lib : list string) (pm : bool) (pad : Q) (sk dk : ekind) 
            ++ seg_fails pad els
            ++ (if nodupb (names els) then [] else ["dupname@0"%string]) in
   match f with [] => "ok"%string | _ => join "," f end.
+
+(* cheap encodings of observed elements: only what the validators look at *)
+Definition ob (b : bool) : option Q := if b then Some 0%Q else None.
+Definition fbv (n : string) (raman : bool) (loss : Q) (cin cout : bool) : elem :=
+  Fib (mkFib n raman loss 1 (ob cin) (ob cout) 0 []).
+Definition amb (n : string) (multi auto : bool) (var : string) (g dp voa : bool) : elem :=
+  Amp (mkAmp n multi auto var (ob g) (ob dp) (ob voa)).
+Definition check_net (lib : list string) (pm : bool) (pad : Q) (ls : list (ekind * ekind * list elem)) : string :=
+  join ";" (map (fun l => match l with (sk, dk, els) => check_line lib pm pad sk dk els end) ls).
